@@ -89,7 +89,8 @@ int32 HCPcdeflate_seek(accrec_t *access_rec, int32 offset, int origin)
     __CPROVER_requires(CS.dpos == DF(AR_INFO(access_rec), offset))
     __CPROVER_assigns(DF(AR_INFO(access_rec), offset), DF(AR_INFO(access_rec), acc_init), DF(AR_INFO(access_rec), acc_mode), CS_ALL)
     __CPROVER_ensures(__CPROVER_return_value == SUCCEED || __CPROVER_return_value == FAIL)
-    __CPROVER_ensures(__CPROVER_return_value == FAIL ==> CS.failed == 1)
+    /* no failure without a reason: a layer below failed, or (sub-domain EOS) the stream ended before the target */
+    __CPROVER_ensures(__CPROVER_return_value == FAIL ==> (CS.failed == 1 || CSC.allow_short))
     /* a seek to the current position is not a backward seek: no termination, no restart, no rewind, no decode */
     __CPROVER_ensures(offset == __CPROVER_old(DF(AR_INFO(access_rec), offset)) ==>
                       (DSEEK_SAME_COUNTS && CS.ndec == __CPROVER_old(CS.ndec) && CS.dpos == __CPROVER_old(CS.dpos) &&
